@@ -24,8 +24,21 @@ size_t g_pl0, g_pc0;                 /* physical line and column of logical char
 size_t g_pline[GS_LMAX + 2];         /* physical line of logical character i (the end of file for i == g_m) */
 size_t g_pcol[GS_LMAX + 2];          /* its 1-based column on that line */
 
-/* index of the first character of the first token: after all leading blanks and comments (oracle) */
-#define T        lex_skip(g_L)
+/* index of the first character of the first token: after the leading blanks and comments (oracle lex_skip_step);
+   at most LOC_SEPS separators (bound of the unit: scankind has two backward `goto again`, which the verifier unwinds
+   as a binary tree -- 2^n copies of the switch for n separators) */
+#define LOC_SEPS 3
+int g_T;
+static int
+loc_T(void)
+{
+	int p = lex_skip_step(g_L, 0);
+
+	if (p > 0) p = lex_skip_step(g_L, p);
+	if (p > 0) p = lex_skip_step(g_L, p);
+	return p;
+}
+#define T        g_T
 #define TI       ((size_t)(T >= 0 ? T : 0))
 #define TC(i)    g_L[TI + (i)]
 #define CLS_T    lex_class(TC(0), TC(1), TC(2))
@@ -39,6 +52,7 @@ size_t g_pcol[GS_LMAX + 2];          /* its 1-based column on that line */
 	/* the scanner location is that of its character, in scan.c's convention for new-line (next line, column 0) */ \
 	X(s->loc.line == g_pl0 + (g_L[0] == '\n') && s->loc.col == (g_L[0] == '\n' ? 0 : g_pc0)) \
 	X(g_saw0 == s->sawspace && g_file0 == s->loc.file && g_leaf_calls == 0) \
+	X(g_T == loc_T() && (g_T < 0 || lex_skip_step(g_L, g_T) == g_T)) \
 	X(T < 0 || !lex_starts_digraph(TC(0), TC(1))) \
 	X(LOC_SELECT)
 
